@@ -691,3 +691,133 @@ pub fn parked_call(sseed: u64) -> Report {
     rep.case = json!({"engine": "stress-parked-call", "fallback": fallback, "hammers": hammers, "slow_listener_us": slow_listener_us, "first_polls": first_polls, "pending_first_polls": pending_first_polls});
     rep
 }
+
+// ---------------------------------------------------------------------------------------
+// Engine "stress-slow-listener": the real clock and a transition listener that takes its time.
+//
+// Under the paused clock a synchronous listener cannot take time. Here `on_state_transition`
+// blocks for 150-250 ms whenever the breaker opens (an alert sent synchronously, a log flushed).
+// The breaker is open for its callers once `force_open()` has returned, and from then on nothing
+// may reach the wrapped service for `wait_duration_in_open`: the time the listener took must not be
+// taken out of the open period. One thread, no runtime, calls every few milliseconds; a verdict
+// needs the early admission to show up in three runs in a row (the margin is half the listener's
+// time, so a single hiccup of the machine cannot fake it three times).
+pub fn slow_listener(sseed: u64) -> Report {
+    let mut rng = Prng::new(sseed);
+    let mut rep = Report::default();
+    let wait_ms = *rng.pick(&[300u64, 400]);
+    let listen_ms = *rng.pick(&[150u64, 250]);
+    let fallback = rng.chance(0.3);
+    let mut early: Vec<String> = vec![];
+    let mut runs = 0;
+    for _ in 0..3 {
+        runs += 1;
+        match slow_listener_once(wait_ms, listen_ms, fallback) {
+            Ok(Some(msg)) => early.push(msg),
+            Ok(None) => break,
+            Err(m) => {
+                rep.inconclusive = Some(m);
+                return rep;
+            }
+        }
+    }
+    if early.len() == 3 {
+        rep.violate(
+            format!("C03:{}:admitted-before-the-wait-was-over", if fallback { "fallback" } else { "plain" }),
+            format!("wait_duration_in_open {wait_ms} ms, on_state_transition listener taking {listen_ms} ms, real clock, three runs in a row: {}", early.join(" | ")),
+        );
+    } else if !early.is_empty() {
+        rep.count("unreproduced_early_admissions", early.len() as u64);
+    }
+    rep.count("runs", runs);
+    rep.bucket(format!("wait={wait_ms}ms listener={listen_ms}ms{}", if fallback { " fallback" } else { "" }));
+    rep.nontrivial = true;
+    rep.sig = crate::prng::mix(wait_ms, listen_ms * 2 + fallback as u64);
+    rep.case = json!({"engine": "stress-slow-listener", "wait_ms": wait_ms, "listener_ms": listen_ms, "fallback": fallback});
+    rep
+}
+
+/// Ok(Some(description)) when a call reached the wrapped service too early, Ok(None) when not.
+fn slow_listener_once(wait_ms: u64, listen_ms: u64, fallback: bool) -> Result<Option<String>, String> {
+    use std::future::Future;
+    use std::task::{Context, Poll, Wake, Waker};
+    use tower::Service;
+    struct Noop;
+    impl Wake for Noop {
+        fn wake(self: std::sync::Arc<Self>) {}
+    }
+    fn drive<F: Future + Unpin>(f: &mut F, cx: &mut Context<'_>, budget: Duration) -> Option<F::Output> {
+        let t0 = std::time::Instant::now();
+        loop {
+            if let Poll::Ready(x) = std::pin::Pin::new(&mut *f).poll(cx) {
+                return Some(x);
+            }
+            if t0.elapsed() > budget {
+                return None;
+            }
+            std::thread::yield_now();
+        }
+    }
+    let w = crate::world::World::new();
+    let layer = CircuitBreakerLayer::builder()
+        .failure_rate_threshold(0.5)
+        .sliding_window_size(4)
+        .wait_duration_in_open(Duration::from_millis(wait_ms))
+        .on_state_transition(move |_from, to| {
+            if to == CircuitState::Open {
+                std::thread::sleep(Duration::from_millis(listen_ms));
+            }
+        })
+        .build();
+    let cb = layer.layer(w.probe(1));
+    let waker = Waker::from(std::sync::Arc::new(Noop));
+    let mut cx = Context::from_waker(&waker);
+    {
+        let h = cb.clone();
+        let mut f = Box::pin(async move { h.force_open().await });
+        if drive(&mut f, &mut cx, Duration::from_secs(20)).is_none() {
+            return Err("force_open() did not complete".into());
+        }
+    }
+    // open for its callers from here on
+    let t_open = std::time::Instant::now();
+    if !cb.is_open() {
+        return Err("the breaker is not open after force_open()".into());
+    }
+    let inner_calls = |w: &crate::world::World| w.snapshot().iter().filter(|r| matches!(r.ev, Ev::InnerEnter { .. })).count();
+    let margin = Duration::from_millis(listen_ms / 2);
+    let mut id = 0u64;
+    type CallFut = std::pin::Pin<Box<dyn Future<Output = ()> + Send>>;
+    let fb = cb.clone().with_fallback(move |req: Req| -> BoxFuture<'static, Result<Resp, PErr>> { Box::pin(async move { Ok(Resp { serial: 0, req_id: req.id, payload: req.payload, src: 77 }) }) });
+    while t_open.elapsed() < Duration::from_millis(wait_ms + listen_ms + 200) {
+        id += 1;
+        let req = Req::new(id, 0, vec![Step { lat: Lat::Us(0), out: Out::Ok }]);
+        let mut f: CallFut = if fallback {
+            let mut s = fb.clone();
+            let _ = s.poll_ready(&mut cx);
+            let f = s.call(req);
+            Box::pin(async move {
+                let _ = f.await;
+            })
+        } else {
+            let mut s = cb.clone();
+            let _ = s.poll_ready(&mut cx);
+            let f = s.call(req);
+            Box::pin(async move {
+                let _ = f.await;
+            })
+        };
+        if drive(&mut f, &mut cx, Duration::from_secs(10)).is_none() {
+            return Err("a call on the breaker did not resolve within 10 s".into());
+        }
+        let at = t_open.elapsed();
+        if inner_calls(&w) > 0 {
+            if at + margin < Duration::from_millis(wait_ms) {
+                return Ok(Some(format!("call #{id} reached the wrapped service {} ms after force_open() had returned", at.as_millis())));
+            }
+            return Ok(None);
+        }
+        std::thread::sleep(Duration::from_millis(4));
+    }
+    Err("no call was admitted even long after the wait".into())
+}
